@@ -149,3 +149,8 @@ impl<T: AsyncWrite + Unpin> AsyncWrite for Output<T> {
         Pin::new(&mut self.io).poll_close(cx)
     }
 }
+
+#[cfg(kani)]
+pub(crate) mod verif {
+    include!(concat!(env!("LIBP2P_VERIF"), "/hooks/noise_io.rs"));
+}
